@@ -67,6 +67,11 @@ CLAIMED["C08"] = dict(
     text="Decides: each hybrid operator has one short and one long arm building the same variant with the same domain permission (long names = README list); the constant spellings are exactly the README's; whitespace yields no token and a parenthesised group adds no node; evaluation sees only canonical names and selects the symbolic copy by the name's length; occurrences and binders are renamed through the same scope entry. Equality of results over all rewrites is not decided.",
     note=TRUST + "README.md lists the documented spellings.", ref="5/C08")
 
+CLAIMED["C14"] = dict(
+    technique="static analysis: panic-site inventory over the call graph of resolved callees from the 17 string entry points; automatic dominance guards on path conditions; reviewed discharge table whose prerequisites (validator placement, cache protocol, restrict guard, mode flags) are re-verified on every run",
+    text="Decides: no panic-capable construct (unwrap/expect, unreachable!/panic!, indexing/slicing, usize subtraction, known panicking library calls) reachable from a string entry point is left without a dominating local guard or a reviewed discharge whose prerequisites hold on the current tree; parse_and_validate[_extended] push a tree only after parser, preprocessing, the variable-support check for that tree and (extended) the context validation, and every string entry point evaluates only such trees on the validated graph; the listed error conditions are produced as Err values on their own paths. The 'error exactly when' half over all strings, and panics inside the libraries on validated arguments, are not decided.",
+    note=TRUST + "Reviewed exceptions are listed with their reasons in tables/panic_discharge.json.", ref="5/C14")
+
 NOT_APPLICABLE = {
     "C09": "value-level property of a character-level rewriting (canonical strings coincide exactly for alpha-equivalent inputs, injectivity, idempotence, occurrence lower bounds); the only structural necessary condition (duplicates marked only for <= 1 variable) is a clause of C04 and is checked there (DESIGN.md section 9)",
 }
